@@ -1,6 +1,7 @@
 pub mod c04;
 pub mod c05;
 pub mod c06;
+pub mod c14;
 pub mod c19;
 pub mod c20;
 
@@ -14,6 +15,7 @@ pub fn run(ctx: &Ctx, sink: &mut Sink) -> bool {
         "C20" => c20::run_prop(ctx, sink),
         "C06" => c06::run_prop(ctx, sink),
         "C05" => c05::run_prop(ctx, sink),
+        "C14" => c14::run_prop(ctx, sink),
         _ => return false,
     }
     true
